@@ -140,12 +140,35 @@ Drift(e) == \/ e.res.err # e.model.err
             \/ (IsRepair(e) /\ ToSet(e.res.repaired) # ToSet(e.model.repaired))
             \/ (IsRepair(e) /\ e.post # e.model.post)
 
+\* ---- conformance of the decoder's delegate log (the CLI's user-visible log) with the specification:
+\* one OnDataFileLoad per protected file in recovery-set order, numbered 1..n, with the byte count of
+\* the file on disk and exactly the hit / miss counters of the greedy scan of ScanP; writes numbered
+\* in recovery-set order for exactly the repaired paths.  Not a listed property: reported as drift.
+DelegateConforms(e) ==
+  "dlg" \in DOMAIN e =>
+    LET n == Len(e.names)
+        cs == SP!Contents(e.s, e.names, e.prot)
+    IN /\ (e.res.err = "" => Len(e.dlg.files) = n)
+       /\ \A k \in 1 .. Len(e.dlg.files) :
+             LET f == e.dlg.files[k]
+                 d == e.pre[e.names[k]]
+             IN /\ f[1] = k /\ f[2] = n
+                /\ IF d = SP!Absent THEN f[3] = 0 /\ f[4] = 0 /\ f[5] = 0
+                   ELSE /\ f[3] = Len(d)
+                        /\ << f[4], f[5] >> = SP!ScanStats(e.s, cs, d)
+       /\ e.dlg.wpaths = e.res.repaired
+       /\ \A k \in 1 .. Len(e.dlg.writes) :
+             /\ e.dlg.writes[k][2] = n /\ e.dlg.writes[k][4] = 0
+             /\ e.names[e.dlg.writes[k][1]] = e.dlg.wpaths[k]
+             /\ (k > 1 => e.dlg.writes[k - 1][1] < e.dlg.writes[k][1])
+
 Init == l = 1
 Next == /\ l <= Len(Trace)
         /\ LET e == Trace[l] IN
              IsOp(e) =>
                /\ \A c \in Failed(e) : PrintT("VERDICT " \o ToJson([i |-> l, clause |-> c]))
-               /\ (Drift(e) => PrintT("DRIFT " \o ToJson([i |-> l])))
+               /\ (Drift(e) => PrintT("DRIFT " \o ToJson([i |-> l, kind |-> "result"])))
+               /\ (~DelegateConforms(e) => PrintT("DRIFT " \o ToJson([i |-> l, kind |-> "delegate"])))
         /\ l' = l + 1
 
 AllJudged == /\ PrintT("JUDGED " \o ToJson([n |-> TLCGet("stats").diameter - 1]))
